@@ -284,6 +284,8 @@ def _ops():
     op("d_props", "D")(lambda L, a, k, e: (a[0].get_number_of_subsystems(), repr(a[0])))
     # ---- wavefunctions
     op("w_new", "V")(lambda L, a, k, e: L["Wavefunction"](a[0]))
+    op("w_dicke", )(lambda L, a, k, e: L["Wavefunction"].dicke_state(1 + k[0] % 4, k[1] % (2 + k[0] % 4)))
+    op("w_zero", )(lambda L, a, k, e: L["Wavefunction"].zero_state(1 + k[0] % 3))
     op("w_amplitudes", "W")(lambda L, a, k, e: np.array(a[0].amplitudes))
     op("w_probs", "W")(lambda L, a, k, e: a[0].get_probabilities())
     op("w_outcome_probs", "W")(lambda L, a, k, e: a[0].get_outcome_probs())
@@ -841,7 +843,9 @@ class World:
                 r2[0, 0] = r2[0, 0] + 1
                 done = True
             elif isinstance(r2, L["Wavefunction"]) and not r2.free_symbols and len(r2) >= 1:
-                r2[0] = -1 * complex(np.asarray(r2.amplitudes).reshape(-1)[0])
+                flat = [complex(x) for x in np.asarray(r2.amplitudes).reshape(-1)]
+                i0 = next((i for i, x in enumerate(flat) if x != 0), 0)
+                r2[i0] = -1 * flat[i0]   # a norm-preserving assignment through the public interface
                 done = True
             elif isinstance(r2, L["Measurements"]) and isinstance(r2.bitstrings, list) and r2.bitstrings:
                 r2.add_counts({"".join("1" for _ in r2.bitstrings[0]): 1})
